@@ -64,7 +64,12 @@ def write(pid, tier, seed, wall, result, n_new_violations):
     if sch is not None:
         import jsonschema
         jsonschema.validate(ev, sch)
-    path = os.path.join(VERIF, "evidence", "%s.json" % pid)
+    from vtlib.env import REPO
+    if REPO != "/repo":
+        # runs against a scratch worktree (testing the machinery) never touch the committed evidence
+        path = os.path.join(VERIF, "tmp", "evidence-scratch", "%s.json" % pid)
+    else:
+        path = os.path.join(VERIF, "evidence", "%s.json" % pid)
     os.makedirs(os.path.dirname(path), exist_ok=True)
     tmp = path + ".tmp"
     with open(tmp, "w") as f:
